@@ -638,6 +638,21 @@ pub fn f5() -> Fragment {
                 ]))),
             ]));
         }
+        // a parameter in function position that has the name of a declared function (the
+        // parameter wins), called with another function; also as a rec binder's namesake
+        {
+            let f = fun("f", &["x"], obj(vec![prop("fromGlobal", var("x"))]));
+            let g = fun("g", &["x"], obj(vec![prop("fromArg", var("x"))]));
+            let ap = fun("ap", &["f", "y"], app("f", vec![var("y")]));
+            extra.push(single(vec![f.clone(), g.clone(), ap.clone(), get(content(app("ap", vec![var("g"), E::Prim(Prim::Int)])))]));
+            extra.push(single(vec![ap.clone(), get(content(app("ap", vec![var("g"), E::Prim(Prim::Int)]))), g.clone(), f.clone()]));
+            extra.push(single(vec![
+                f,
+                g,
+                fun("ap", &["f", "y"], obj(vec![prop("called", app("f", vec![var("y")])), prop("again", app("f", vec![str_()]))])),
+                get(content(app("ap", vec![var("g"), E::Prim(Prim::Int)]))),
+            ]));
+        }
         // a parameter name written twice that is also the name of a declaration used elsewhere
         {
             let pick = fun("pick", &["x", "x"], var("x"));
@@ -1449,6 +1464,43 @@ pub fn f8() -> Fragment {
             },
         ],
     });
+    // a function of an imported module whose parameter kinds stay open, used at one kind by a
+    // sibling module and at another by main (both orders of main's imports; with and without
+    // the sibling's own use)
+    for order in [false, true] {
+        for sibling_uses in [true, false] {
+            let mut main = vec![
+                Stmt::Use("a.oal".into(), Some("a".into())),
+                Stmt::Use("m.oal".into(), Some("m".into())),
+            ];
+            if order {
+                main.reverse();
+            }
+            main.push(get(content(obj(vec![
+                prop("n", qvar("a", "nums")),
+                prop("o", E::App(Some("m".into()), "pair".into(), vec![obj(vec![]), obj(vec![prop("k", str_())])])),
+            ]))));
+            programs.push(Program {
+                modules: vec![
+                    Module { name: "main.oal".into(), stmts: main },
+                    Module {
+                        name: "a.oal".into(),
+                        stmts: vec![
+                            Stmt::Use("m.oal".into(), Some("m".into())),
+                            let_(
+                                "nums",
+                                if sibling_uses { E::App(Some("m".into()), "pair".into(), vec![num(), num()]) } else { obj(vec![prop("l", num())]) },
+                            ),
+                        ],
+                    },
+                    Module {
+                        name: "m.oal".into(),
+                        stmts: vec![fun("pair", &["a", "b"], obj(vec![prop("l", var("a")), prop("r", var("b"))]))],
+                    },
+                ],
+            });
+        }
+    }
     // resources of an imported module are not part of the program
     programs.push(Program {
         modules: vec![
